@@ -8,7 +8,9 @@ import os
 import subprocess
 import sys
 
-names = sys.argv[1:] or sorted(os.listdir('/verif/seeded'))
+names = sys.argv[1:] or sorted(
+    n for n in os.listdir('/verif/seeded')
+    if os.path.isdir(os.path.join('/verif/seeded', n)))
 missed = []
 for name in names:
     meta = json.load(open(f'/verif/seeded/{name}/meta.json'))
